@@ -203,7 +203,11 @@ def schedules(ctx):
         uncond = times if uncond is None else (uncond & times)
     seen_any = any(s for seqs in table.values() for s, _ in seqs)
     unread = any(b is None for seqs in table.values() for s, _ in seqs for a, b, c in s)
-    if not seen_any or unread:
+    inexact = [(a, b[1]) for seqs in table.values() for s, _ in seqs for a, b, c in s if isinstance(b, tuple) and b and b[0] == 'inexact']
+    if inexact:
+        ctx.violation('C13.S4', 'the schedule times 14:30 and 21:00 are events the clock emits unconditionally', None,
+                      'the clock\'s %s event is not exactly on its time of day (%s): no schedule instant, stamped HH:MM:00, ever equals it' % inexact[0], key='C13.S4|times')
+    elif not seen_any or unread:
         # the clock generates its events in a way the event table does not read (streams zipped per event type, ...): not claimed either way
         ctx.undecided('C13.S4', 'the schedule times 14:30 and 21:00 are events the clock emits unconditionally', None, 'no event of the clock was recognised')
     else:
